@@ -27,7 +27,7 @@ var suitesByProp = map[string][]func(*runner, *rng){
 	"C19": {suiteDeterminism},
 	"C08": {suiteTotality, suiteTeletextHostile},
 	"C06": {suiteTeletext, suiteTeletextModel, suiteTeletextHamming},
-	"C07": {suiteConvert, suiteConvertModel, suiteConvertOps, suiteConvertCLI, suiteConvertRich, suiteConvertPlain, suiteConvertCLIModel, suiteConvertPlainStyled, suiteConvertStlStyledSrt, suiteConvTtmlSsa, suiteConvTtmlVtt},
+	"C07": {suiteConvert, suiteConvertModel, suiteConvertOps, suiteConvertCLI, suiteConvertRich, suiteConvertPlain, suiteConvertCLIModel, suiteConvertPlainStyled, suiteConvertStlStyledSrt, suiteConvTtmlSsa, suiteConvTtmlVtt, suiteConvertPlainTtx, suiteConvertStyledTtx},
 	"C20": {suiteConcurrency},
 	"C18": {suiteFaults, suiteStlIO},
 	"C03": {suiteTtml},
